@@ -91,10 +91,10 @@ def random_boundary(rng, fc, fi, forced_kind=None, forced_mask=None):
         full_rows = not any(skip[:d])
     B = fem.Boundary(f, **b_kw)
     nsel = int(B.dof.size)
-    vk = ["scalar", "perdof", "row"][rng.randint(0, 3)]
+    vk = ["scalar", "perdof", "row", "matrixT"][rng.randint(0, 4)]
     if vk == "perdof" and nsel == 0:
         vk = "scalar"
-    if vk == "row" and (not full_rows or kind == "dofmask" or nsel == 0 or d == 1):
+    if vk in ("row", "matrixT") and (not full_rows or kind == "dofmask" or nsel == 0 or d == 1):
         vk = "scalar"
     if vk == "scalar":
         val = float(rng.randint(-5, 6))
@@ -102,6 +102,12 @@ def random_boundary(rng, fc, fi, forced_kind=None, forced_mask=None):
     elif vk == "perdof":
         val = rng.randint(-5, 6, size=nsel).astype(float)
         desc.update(vkind="perdof", value=qi(val))
+    elif vk == "matrixT":
+        # one value per selected (point, component), handed over as a NON-contiguous array (transpose of a component-major array):
+        # logically value[point, component], i.e. the same as the per-dof vector value.ravel() in C order
+        comp_major = rng.randint(-5, 6, size=(d, nsel // d)).astype(float)
+        val = comp_major.T
+        desc.update(vkind="perdof", value=qi(np.ascontiguousarray(val).ravel()))
     else:
         val = rng.randint(-5, 6, size=d).astype(float)
         desc.update(vkind="row", value=qi(val))
@@ -161,11 +167,14 @@ def loadcases(out, tier):
     }
     SC = 8
 
-    def emit(rid, lc, field, res, a):
-        m = field[0].region.mesh
-        bounds, d = res
-        out.write({"id": rid, "kind": "loadcase", "nt": True, "lc": lc, "dim": int(field[0].dim), "coords": [qi(p) for p in m.points],
-                   "args": a, "dof0": qi(d["dof0"]), "dof1": qi(d["dof1"]), "ext0": qi(np.rint(np.asarray(d["ext0"]) * SC))})
+    def emit(rid, lc, field, mkres, a):
+        """mkres() calls the load-case function; an exception raised there is a record (NoException), the loop goes on"""
+        def case():
+            m = field[0].region.mesh
+            bounds, d = mkres()
+            return {"id": rid, "kind": "loadcase", "nt": True, "lc": lc, "dim": int(field[0].dim), "coords": [qi(p) for p in m.points],
+                    "args": a, "dof0": qi(d["dof0"]), "dof1": qi(d["dof1"]), "ext0": qi(np.rint(np.asarray(d["ext0"]) * SC))}
+        out.attempt(rid, case)
 
     for mname, (mk, rg, dim) in meshes.items():
         kinds = [("Field", lambda r, dim=dim: fem.Field(r, dim=dim))]
@@ -178,23 +187,27 @@ def loadcases(out, tier):
                 s = list(sym[:dim])
                 rid = "lc-symmetry-%s-%s-%s" % (mname, kname, "".join(map(str, s)))
                 if out.want(rid):
-                    b = fem.dof.symmetry(field[0], axes=tuple(bool(v) for v in sym))
-                    dof0, dof1 = fem.dof.partition(field, b)
-                    ext0 = fem.dof.apply(field, b, dof0)
-                    emit(rid, "symmetry", field, (b, dict(dof0=dof0, dof1=dof1, ext0=ext0)), {"sym": s})
+                    def symcase(sym=sym, field=field):
+                        b = fem.dof.symmetry(field[0], axes=tuple(bool(v) for v in sym))
+                        dof0, dof1 = fem.dof.partition(field, b)
+                        ext0 = fem.dof.apply(field, b, dof0)
+                        return (b, dict(dof0=dof0, dof1=dof1, ext0=ext0))
+                    emit(rid, "symmetry", field, symcase, {"sym": s})
                 for axis in range(dim):
                     for clamped in (True, False):
                         for move in (0.25, -0.5):
                             rid = "lc-uniaxial-%s-%s-%s-a%d-c%d-m%g" % (mname, kname, "".join(map(str, s)), axis, clamped, move)
                             if out.want(rid):
-                                res = fem.dof.uniaxial(field, move=move, axis=axis, clamped=clamped, sym=tuple(bool(v) for v in sym))
+                                res = lambda field=field, move=move, axis=axis, clamped=clamped, sym=sym: fem.dof.uniaxial(  # noqa: E731
+                                    field, move=move, axis=axis, clamped=clamped, sym=tuple(bool(v) for v in sym))
                                 emit(rid, "uniaxial", field, res, {"sym": s, "axis": axis, "clamped": bool(clamped), "move": int(move * SC)})
                 for axes in itertools.permutations(range(dim), 2):
                     for clampes in ((False, False), (True, False), (False, True)):
                         moves = (0.25, -0.5)
                         rid = "lc-biaxial-%s-%s-%s-a%d%d-c%d%d" % (mname, kname, "".join(map(str, s)), axes[0], axes[1], clampes[0], clampes[1])
                         if out.want(rid):
-                            res = fem.dof.biaxial(field, moves=moves, axes=axes, clampes=clampes, sym=tuple(bool(v) for v in sym))
+                            res = lambda field=field, moves=moves, axes=axes, clampes=clampes, sym=sym: fem.dof.biaxial(  # noqa: E731
+                                field, moves=moves, axes=axes, clampes=clampes, sym=tuple(bool(v) for v in sym))
                             emit(rid, "biaxial", field, res, {"sym": s, "axes": list(axes), "clampes": [bool(c) for c in clampes],
                                                               "moves": [int(v * SC) for v in moves]})
             for axes in itertools.permutations(range(dim), 2):
@@ -202,7 +215,7 @@ def loadcases(out, tier):
                     for moves in ((0.25, 0.0, 0.0), (0.5, 0.125, -0.25)):
                         rid = "lc-shear-%s-%s-a%d%d-s%d-m%g" % (mname, kname, axes[0], axes[1], symflag, moves[1])
                         if out.want(rid):
-                            res = fem.dof.shear(field, moves=moves, axes=axes, sym=symflag)
+                            res = lambda field=field, moves=moves, axes=axes, symflag=symflag: fem.dof.shear(field, moves=moves, axes=axes, sym=symflag)  # noqa: E731
                             emit(rid, "shear", field, res, {"axes": list(axes), "sym": bool(symflag), "moves": [int(v * SC) for v in moves]})
 
 
